@@ -324,11 +324,17 @@ Lemma server_dlg_concat c t : forall act cs cs',
   concat cs = concat cs' -> d_data (server_dlg false c t) act cs = d_data (server_dlg false c t) act cs'.
 Proof. apply plain_dlg_concat. Qed.
 
+Lemma bodies_ok_squash B : forall evs acc, bodies_ok B acc (map squash_ev evs) = bodies_ok B acc evs.
+Proof.
+  induction evs as [|e r IH]; intros acc; [reflexivity|].
+  destruct e; cbn [map squash_ev bodies_ok]; rewrite ?IH; reflexivity.
+Qed.
+
 Theorem model_satisfies_checker : forall i, check_case i (run_case i) = true.
 Proof.
   intros i. unfold check_case, run_case. apply andb_true_iff. split.
   - unfold obs_of_events. apply (collect_reqs_ok _ _ None [] [] 0); [reflexivity|exact I|].
-    apply trace_bodies_bounded.
+    rewrite bodies_ok_squash. apply trace_bodies_bounded.
   - destruct (dec_of i) eqn:D; [reflexivity|]. cbn [orb].
     unfold trace. rewrite D. unfold server_dlg.
     rewrite (seg_refines_whole plain_dlg (cfg_of i) plain_dlg_concat). apply obs_eqb_refl.
